@@ -231,7 +231,8 @@ def op (st : St) (toks : List String) : St × String :=
       | .error f => (st, s!"DIFF add model-fault={reprStr f} impl={res}")
       | .ok (model', e) =>
         let implErr := match res with | "ok" :: _ => "ok" | [x] => x | _ => "?"
-        if implErr != FlatStream.errName e then
+        -- accepted vs rejected; which error a rejected Add reports is free (Proto.sameOutcome)
+        if implErr == "?" || !sameOutcome implErr (FlatStream.errName e) then
           (st, s!"DIFF add model={FlatStream.errName e} impl={implErr}") else
         let live' := Flat.specStep m st.model.dim st.live (.add id v)
         let st := { st with added := st.added.set id (), live := live' }
@@ -262,7 +263,7 @@ def op (st : St) (toks : List String) : St × String :=
         | _, _ =>
           -- rejected add: nothing may change
           if ch.isEmpty && ent == st.mirror.entry && ml == st.mirror.maxLevel then
-            ({ st with model := model' }, "ok add err")
+            ({ st with model := model' }, s!"ok add err {classFlag implErr}")
           else (st, "DIFF add rejected but graph changed")
     | _, _, _ => (st, "BADOP add")
   | ["remove", id] =>
@@ -272,10 +273,10 @@ def op (st : St) (toks : List String) : St × String :=
       let (mirror', _) := HNSW.remove st.mirror id
       let live' := Flat.specStep m st.model.dim st.live (.remove id)
       let st' := { st with model := model', mirror := mirror', live := live', removed := st.removed || e.isNone }
-      if res != [FlatStream.errName e] then (st', s!"DIFF remove model={FlatStream.errName e} impl={res}")
+      if !outcomeAgrees res (FlatStream.errName e) then (st', s!"DIFF remove model={FlatStream.errName e} impl={res}")
       else if !(ch.isEmpty && ent == st.mirror.entry && ml == st.mirror.maxLevel) then
         (st', "DIFF remove changed the graph")
-      else (st', s!"ok remove entry={flag (e.isNone && id == st.mirror.entry)}")
+      else (st', s!"ok remove entry={flag (e.isNone && id == st.mirror.entry)}{if e.isNone then "" else " failed=1 " ++ classFlag (res.headD "?")}")
     | _, _ => (st, "BADOP remove")
   | ["flush"] =>
     match splitTail post with
@@ -348,9 +349,7 @@ def op (st : St) (toks : List String) : St × String :=
       | _, .error f => (st, s!"DIFF search model-fault={reprStr f}")
       | .ok mc, .ok mres =>
         match res, mc, mres with
-        | ["err", e], .error me, _ =>
-          if e == FlatStream.errName (some me) then (st, "ok search err")
-          else (st, s!"DIFF search-err model={FlatStream.errName (some me)} impl={e}")
+        | ["err", e], .error _, _ => (st, s!"ok search err {classFlag e}")   -- which error: free
         | ["err", e], .ok _, _ => (st, s!"DIFF search model=ok impl=err:{e}")
         | "ok" :: _, .error me, _ => (st, s!"DIFF search model=err:{FlatStream.errName (some me)} impl=ok")
         | "ok" :: hits, .ok mcands, .ok mhits =>
